@@ -245,6 +245,10 @@ def run_job(job):
                         c_lo_end = max(c_lo_end, (hi_v - 0.5 - last) / last - float(rh))
                         c_hi_end = min(c_hi_end, (hi_v + 0.5 - last) / last - float(rh))
                 tol_c = 1e-9 * max(1.0, abs(corr))
+                if c_lo_end > c_hi_end + tol_c and c_hi_end != float("inf") and not out["s"]:
+                    out["s"].append({"what": f"{e}@{a}: no single correction explains the reported bounds of the outstanding units (the bounds of some unit need a correction "
+                                             f">= {c_lo_end}, those of another one <= {c_hi_end}); the calibrated correction of this estimand and level is {corr}",
+                                     "kind": "applied-correction"})
                 if c_lo_end <= c_hi_end and (corr < c_lo_end - tol_c or corr > c_hi_end + tol_c) and not out["s"]:
                     c_app = c_hi_end if corr > c_hi_end else c_lo_end
                     share_app = sum(w for lb, ub, w in zip(cp["lb"], cp["ub"], cp["weights"]) if max(lb, ub) <= c_app) / W
